@@ -47,7 +47,10 @@ type variant struct {
 	PBonus int
 	// ByID: the consumer finishes a seed with a freshly built item that carries the seed's ID (the reactor
 	// tracks seeds by ID; which Go object carries the ID is not part of its contract)
-	ByID     bool
+	ByID bool
+	// Unread: the output channel is unbuffered and the consumer leaves after Unread items (the stage behind
+	// the reactor was stopped first): the run loop is left holding a seed nobody takes when Stop() comes
+	Unread   int
 	Inserts1 []string
 	Inserts2 []string
 }
@@ -116,7 +119,11 @@ func scenario(v variant) *vsched.Scenario {
 	sc.Setup = func(x *vsched.Exec) {
 		reactor.VerifReset()
 		config.VerifSet(&config.Config{NoStdoutLogging: true, NoStderrLogging: true, NoFileLogging: true})
-		w = &world{seq: map[string]int{}, v: v, out: make(chan *models.Item, v.Tokens), quit: make(chan struct{})}
+		outCap := v.Tokens
+		if v.Unread > 0 {
+			outCap = 0
+		}
+		w = &world{seq: map[string]int{}, v: v, out: make(chan *models.Item, outCap), quit: make(chan struct{})}
 		x.Data = w
 	}
 	sc.Body = func() {
@@ -284,7 +291,10 @@ func consumer(w *world) {
 	seen := map[string]int{}
 	extra := w.v.Extra
 	defer w.consWG.Done()
-	for {
+	for n := 0; ; n++ {
+		if w.v.Unread > 0 && n == w.v.Unread-1 {
+			return
+		}
 		var it *models.Item
 		select {
 		case it = <-w.out:
@@ -399,6 +409,9 @@ func variants(tier string) []variant {
 		{Name: "t2-freeze", Tokens: 2, Freeze: true, Inserts1: []string{"a", "b"}, Inserts2: []string{"c"}},
 		{Name: "t1-freeze-rest-stop-late-calls", Tokens: 1, Freeze: true, StopRest: true, Inserts1: []string{"a"}, Inserts2: []string{"b"}},
 		{Name: "t2-freeze-rest-stop-late-calls", Tokens: 2, Freeze: true, StopRest: true, Inserts1: []string{"a", "b"}, Inserts2: []string{"c"}},
+		{Name: "t2-rest-stop-output-unread", Tokens: 2, StopRest: true, Unread: 1, Inserts1: []string{"a", "b"}},
+		{Name: "t2-freeze-rest-stop-output-unread", Tokens: 2, Freeze: true, StopRest: true, Unread: 1, Inserts1: []string{"a"}, Inserts2: []string{"b"}},
+		{Name: "t2-rest-stop-output-read-once", Tokens: 2, StopRest: true, Unread: 2, Inserts1: []string{"a", "b"}},
 		{Name: "t1-stop-overlapping-calls", Tokens: 1, Freeze: true, Stop: true, Inserts1: []string{"a"}, Inserts2: []string{"b"}},
 	}
 	return vs
